@@ -20,7 +20,7 @@ for m in idx:
     r = {'applied': p.returncode == 0}
     if p.returncode == 0:
         env = dict(os.environ, CARGO_TARGET_DIR=os.environ.get('AUDIT_TARGET', '/tmp/mutant-target'), CARGO_NET_OFFLINE='true', RUSTFLAGS='-Awarnings')
-        feat = ['--features', 'sdp,blas-src,lapack-src'] if ('psd' in name or 'connect_graph' in name or 'clique' in name or 'reverse_compact' in name or 'merge_loop' in name or 'standard_H' in name or 'parent_child' in name or 'sortperm' in name) else []
+        feat = ['--features', 'sdp,blas-src,lapack-src'] if ('psd' in name or 'connect_graph' in name or 'clique' in name or 'reverse_compact' in name or 'merge_loop' in name or 'standard_H' in name or 'parent_child' in name or 'sortperm' in name or 'block_indices' in name) else []
         c = subprocess.run(['cargo', 'check', '--offline', '--lib'] + feat, cwd=repo, env=env, stdout=subprocess.PIPE, stderr=subprocess.STDOUT, text=True)
         r['compiles'] = c.returncode == 0
         if c.returncode == 0:
